@@ -11,6 +11,9 @@ Queries
   alias.<lp>.<lq>           local store: two paths with different segment sequences (neither a prefix of the other)
                             committed to different keys resolve to their own key; every node created lies inside
                             realpath(data_dir). Segments are solver-chosen indices into a confusable alphabet.
+  loc.<n>                   LocalFileStore._path_location on two fully symbolic path strings (<= n characters after the
+                            leading slash): accepted paths with different segment sequences get different locations, and
+                            every location is data_dir + segments without '..' (no stripping / folding / escaping).
   create                    DDSPathUtils.create accepts exactly the absolute paths.
 """
 import posixpath
@@ -32,17 +35,17 @@ EXPLANATION = "C08: real store classes vs a dictionary model; the local store ru
 STUBBED_NAMES = fsmodel.STUBBED_NAMES
 FUNCTIONS_ENCODED = [
     "dds.store.MemoryStore.*", "dds.store.LocalFileStore.__init__", "dds.store.LocalFileStore.has_blob", "dds.store.LocalFileStore.fetch_blob", "dds.store.LocalFileStore.store_blob",
-    "dds.store.LocalFileStore.sync_paths", "dds.store.LocalFileStore.fetch_paths", "dds._lru_store.LRUCacheStore.*", "dds.codecs.builtins.StringLocalFileCodec.*", "dds.codecs.builtins.BytesFileCodec.*",
+    "dds.store.LocalFileStore._path_location", "dds.store.LocalFileStore.sync_paths", "dds.store.LocalFileStore.fetch_paths", "dds._lru_store.LRUCacheStore.*", "dds.codecs.builtins.StringLocalFileCodec.*", "dds.codecs.builtins.BytesFileCodec.*",
     "dds.codecs.builtins.PickleLocalFileCodec.*", "dds.codec.CodecRegistry.get_codec", "dds.structures_utils.DDSPathUtils.create",
 ]
 KEYS = ["aa11", "bb22"]
 SEQ_PATHS = ["/p", "/d/e/r"]
 ALPHA = ["a", "b", "ab", "..", ".", "a.b", "a b", "é"]
 BOUNDS = {
-    "quick": {"sequences": "every sequence of 3 operations over 2 keys x 2 paths (1 and 3 segments) from the empty store, partitioned by the first two opcodes; stores: memory, local", "values": "one value per key: symbolic ASCII str (<= 1 char) for k0; None or 2 bytes for k1 (symbolic selector)", "alias": "pairs of paths of 1..3 segments over {a, b, ab, .., .} (indices chosen by the solver; the two 3-segment paths over {a, b, ab})", "create": "every str of length <= 3"},
-    "thorough": {"sequences": "every sequence of 4 operations, partitioned by the first two opcodes; stores: memory, local, local+cache", "values": "as quick", "alias": "pairs of paths of 1..3 segments over {a, b, ab, .., ., a.b, 'a b', e-acute}", "create": "every str of length <= 4"},
+    "quick": {"sequences": "every sequence of 3 operations over 2 keys x 2 paths (1 and 3 segments) from the empty store, partitioned by the first two opcodes; stores: memory, local", "values": "one value per key: symbolic ASCII str (<= 1 char) for k0; None or 2 bytes for k1 (symbolic selector)", "alias": "pairs of paths of 1..3 segments over {a, b, ab, .., .} (indices chosen by the solver; the two 3-segment paths over {a, b, ab})", "loc": "two symbolic path strings of <= 3 characters each after the leading slash (any code point)", "create": "every str of length <= 3"},
+    "thorough": {"sequences": "every sequence of 4 operations, partitioned by the first two opcodes; stores: memory, local, local+cache", "values": "as quick", "alias": "pairs of paths of 1..3 segments over {a, b, ab, .., ., a.b, 'a b', e-acute}", "loc": "two symbolic path strings of <= 4 characters each", "create": "every str of length <= 4"},
 }
-OUTSIDE = ["paths with empty segments (doubled / trailing slashes)", "fully symbolic path strings (not confirmable; the segment alphabet is the bound)", "a path committed to a key whose blob was never stored (dds commits paths only after storing)", "DBFS store (see C19)"]
+OUTSIDE = ["paths with empty segments (doubled / trailing slashes)", "fully symbolic path strings through the whole store (the segment alphabet is the bound there; loc.* covers the path -> location mapping on symbolic strings)", "a path committed to a key whose blob was never stored (dds commits paths only after storing)", "DBFS store (see C19)"]
 ASSUMPTIONS = ["file-system model = POSIX semantics as validated by the differential self-test", "content-addressed use: one value per key", "clock stub: meta timestamp is a constant"]
 LAST_DETAIL = [""]
 OPS = ["store", "has", "fetch", "sync", "fpaths", "reopen"]
@@ -230,6 +233,35 @@ def alias_impl(a):
     return h.verdict(ok)
 
 
+def loc_impl(a):
+    h.enter()
+    if h.blocked(**a):
+        return True
+    p, q = "/" + a["p"], "/" + a["q"]
+    store = object.__new__(dstore.LocalFileStore)
+    store._root, store._data_root = "/s/int", "/s/data"
+    locs = []
+    for path in (p, q):
+        try:
+            locs.append(store._path_location(path))
+        except DDSException:
+            locs.append(None)  # coded refusal
+    ok = True
+    for path, loc in zip((p, q), locs):
+        if loc is None:
+            continue
+        if not loc.startswith("/s/data/") or any(seg in ("..", ".") for seg in loc.split("/")):
+            LAST_DETAIL[0] = "path %r is located at %r: not inside the data directory" % (path, loc)
+            ok = False
+    if ok and locs[0] is not None and locs[1] is not None:
+        sp = [x for x in p.split("/") if x]
+        sq = [x for x in q.split("/") if x]
+        if sp != sq and [x for x in locs[0].split("/") if x] == [x for x in locs[1].split("/") if x]:
+            LAST_DETAIL[0] = "paths %r and %r share the location %r" % (p, q, locs[0])
+            ok = False
+    return h.verdict(ok)
+
+
 def create_impl(a):
     h.enter()
     s = a["s"]
@@ -258,6 +290,8 @@ def make_fn(fn, sel, tag):
         params = [("x%d" % i, "int") for i in range(sel["lp"]) if ("x%d" % i) not in sel] + [("y%d" % i, "int") for i in range(sel["lq"])]
         pres = ["0 <= %s < %d" % (n, sel["alpha"]) for (n, _t) in params]
         return h.gen_fn(tag, "alias", params, pres, "harness.C08", "alias_impl")
+    if fn == "loc":
+        return h.gen_fn(tag, "loc", [("p", "str"), ("q", "str")], ["len(p) <= %d and len(q) <= %d" % (sel["len"], sel["len"])], "harness.C08", "loc_impl")
     if fn == "create":
         return h.gen_fn(tag, "create", [("s", "str")], ["len(s) <= %d" % sel["len"]], "harness.C08", "create_impl")
     raise KeyError(fn)
@@ -289,6 +323,7 @@ def queries(tier):
                     qs.append({"id": "alias.%d.%d.x%d" % (lp, lq, x0), "fn": "alias", "sel": {"lp": lp, "lq": lq, "alpha": alpha, "x0": x0}, "timeout": 400 if tier == "quick" else 3000})
             else:
                 qs.append({"id": "alias.%d.%d" % (lp, lq), "fn": "alias", "sel": {"lp": lp, "lq": lq, "alpha": alpha}, "timeout": 400 if tier == "quick" else 3000})
+    qs.append({"id": "loc.%d" % (3 if tier == "quick" else 4), "fn": "loc", "sel": {"len": 3 if tier == "quick" else 4}, "timeout": 300 if tier == "quick" else 2400})
     qs.append({"id": "create", "fn": "create", "sel": {"len": 3 if tier == "quick" else 4}, "timeout": 120})
     return qs
 
@@ -317,6 +352,11 @@ def replay(sel, args, fn):
         pseg = [ALPHA[args.get("x%d" % i, 0)] for i in range(lp)]
         qseg = [ALPHA[args.get("y%d" % i, 0)] for i in range(lq)]
         p, q = "/" + "/".join(pseg), "/" + "/".join(qseg)
+    if fn == "loc":
+        p, q = "/" + args["p"], "/" + args["q"]
+        if "\x00" in p + q:
+            return {"reproduced": False, "detail": "NUL in a path cannot be replayed on the real OS"}
+    if fn in ("alias", "loc"):
         root = os.path.realpath(tempfile.mkdtemp(prefix="verif-c08-"))
         try:
             sandbox = os.path.join(root, "sandbox")
